@@ -7,6 +7,8 @@ ALL = ["C%02d" % i for i in range(1, 21)]
 E2_NOTE = ("Trusted base: the interposed kernel model (fork_exec/waitpid/getpgid/killpg/blocking read; under-approximates Linux: every modelled schedule is a real one), "
            "the reference model written from the docs, CPython. Verdict = held on the executions observed, see evidence for counts of events, interleavings and kernel states.")
 
+E1_NOTE = ("Trusted base: the probe (task-side recorder), the fast CLI runner (fork of a warmed interpreter calling conductor.__main__.main(); a sample runs as a separate `python -m conductor` process), the reference model named in the text. Real kernel, real processes, real SQLite/tar/git. Verdict = held on the executions observed.")
+
 CHECKS = {
  "C01": dict(level="exploration", engine="E2 fakekernel (+E1 real processes)", technique="runtime monitoring: history oracle (happens-before + interval disjointness) over recorded spawn/exit/reap events of real cond runs under an interposed process kernel",
              text="Every recorded execution history (spawn/exit/reap events on one logical clock) of real `cond run` invocations over generated DAGs and kernel schedules is checked against the generator's DAG: a task starts only after all executed transitive dependencies exited 0, no interval overlap. Exploration is the right level: the space (graphs x schedules) is unbounded, the oracle is exact per execution.",
@@ -35,6 +37,39 @@ CHECKS = {
  "C20": dict(level="exploration", engine="E5 frontend", technique="runtime monitoring: exhaustive bounded string enumeration through the real identifier functions against a hand-written recursive-descent recogniser; round-trip/canonical-form postconditions; injectivity of output paths through the real task types; CLI sample",
              text="Every string over a 13-symbol alphabet up to length 5 (thorough: 6, and 7-9 over a reduced alphabet) is pushed through is_name_valid / from_str (both prefix modes) / from_relative_str and compared with an independent recogniser; accepted strings are round-tripped; output directories of 400+ (identifier, version) pairs must be pairwise distinct and follow the documented layout; ':name' resolution checked through the real loader; `cond where -f` / `cond run --check` samples.",
              note="Trusted base: the recogniser (no `re`), written from the documented grammar. Exhaustive inside the length bound only.", ref="DESIGN.md §3 C20"),
+ "C05": dict(level="exploration", engine="E4 statecheck (real git, real CLI, probe)", technique="runtime monitoring of real CLI histories against a reference selection model over the generator's commit DAG (ancestor sets, distance, tie-break), observed through `cond where`, probe start events and COND_DEPS",
+             text="Real git repositories are built from generated commit DAGs (branches, --no-ff merges, detached HEAD, lightweight/annotated tags); versions are recorded by real runs at checkouts and by row insertion (null/foreign commits, ties). Each observation (where / run / --again / --at-least C / --this-commit / conflicting flags) is compared with the documented rule evaluated on the generator's DAG.",
+             note=E1_NOTE, ref="DESIGN.md §3 C05"),
+ "C06": dict(level="fault_enumeration", engine="E3 crashpoint (sys.monitoring LINE -> os._exit) + real SIGKILL", technique="runtime monitoring with crash injection: Conductor is killed at enumerated main-thread line events (and by real SIGKILL at random delays); a fresh sqlite connection and the file system are audited against the disk invariant",
+             text="For run (sequential/-j3; no git/clean/dirty), restore, archive and gc: every selected line event of conductor.* (thorough: every line event) is a crash point; after the crash and after orphaned tasks ended, every recorded row must have its directory, completion marker, complete logs, args/options records, an execution that exited 0 and HEAD's commit/dirty flag.",
+             note=E1_NOTE + " Process death only; SQLite's atomic commit is trusted.", ref="DESIGN.md §3 C06"),
+ "C07": dict(level="exploration", engine="E1 procmon (real processes, probe)", technique="runtime monitoring at the process boundary: the probe inside every task reports argv/cwd/COND_* and conductor.lib results; oracle from the generator's definitions and the directories dependencies really used",
+             text="Random DAGs in nested packages with typed args/options run through real `cond run` histories; each started task's cwd, argv, COND_NAME, COND_OUT, COND_DEPS and the values conductor.lib returns inside the task are compared with the contract; all dependents of a task must receive the same directory, the one the dependency itself wrote to (or its selected cached version).",
+             note=E1_NOTE, ref="DESIGN.md §3 C07"),
+ "C08": dict(level="exploration", engine="E4 statecheck + clock scripts + audit hook", technique="runtime monitoring of command histories under scripted clocks: harness listings, the probe's listing of COND_OUT at start, Merkle hashes of recorded versions before/after, and an audit-hook trace of Conductor's own file-system mutations",
+             text="Histories of run (ok / failing / aborted by SIGINT), --again, archive, restore of foreign archives, gc under real back-to-back, frozen, backwards and jumping clocks. Every experiment execution must get a version id above the recorded maximum and a directory that did not exist and is empty; no command but clean may touch a recorded version directory (hash comparison + audit events).",
+             note=E1_NOTE + " Only the `time` object seen by conductor.execution.version_index is replaced, and only in scripted-clock cases.", ref="DESIGN.md §3 C08"),
+ "C10": dict(level="exploration", engine="E1 procmon (real processes, probe)", technique="runtime monitoring with byte-exact comparison: scripted byte streams written by real task processes vs stdout.log/stderr.log, Conductor's own stdout/stderr and the JSON records",
+             text="Tasks write scripted chunks (sizes around pipe/buffer boundaries up to 1 MiB, thorough 8 MiB; all byte values, invalid UTF-8, NUL, CR/LF, ESC; interleaved streams; early close; lingering grandchild) in sequential (teed), parallel-slot and non-parallelizable-under--j modes; logs must equal the bytes written, forwarded output must carry the same bytes, args.json/options.json must decode type-exactly and exist iff non-empty.",
+             note=E1_NOTE, ref="DESIGN.md §3 C10"),
+ "C11": dict(level="exploration", engine="E4 statecheck", technique="runtime monitoring of archive/restore round trips: selection model over the generator's DAG vs rows read independently and Merkle hashes of every version directory",
+             text="Real histories produce several versions per experiment in nested packages (rich trees: empty dirs, 0-byte and binary files, exec bits, unicode names, symlinks incl. dangling; git commit/dirty flags); archive [task] [--latest] [-o ...] then restore into the cleaned project or a fresh clone must recreate exactly the selected rows and byte-identical trees and leave the source untouched.",
+             note=E1_NOTE, ref="DESIGN.md §3 C11"),
+ "C12": dict(level="fault_enumeration", engine="E4 statecheck + E3 crashpoint", technique="runtime monitoring with fault injection: single corruptions of real archives and process death at enumerated line events of `cond restore`; rows and version-directory hashes before vs after",
+             text="Faults: index member removed, listed directory removed, truncation, byte flips, an already recorded row first/middle/last among new ones, pre-existing unrecorded destination, stale staging directory, non-archive input; crash at line events of cli/restore.py, version_index.py, shutil.py (thorough: all) and real SIGKILLs. A restore that does not report success must leave the recorded versions and every existing version directory unchanged; a successful one must have every row and directory.",
+             note=E1_NOTE + " One fault at a time; unrecorded leftovers of a failed restore are don't-care.", ref="DESIGN.md §3 C12"),
+ "C13": dict(level="exploration", engine="E4 statecheck", technique="runtime monitoring of gc on hostile trees: full-tree snapshots before/after vs a delete-set model written from the statement",
+             text="cond-out trees from real histories plus manual additions (look-alikes inside task outputs, files named like task dirs, recorded timestamps under other packages, symlinks inside/outside cond-out, look-alikes in the project root); gc / gc -n / gc -v must delete exactly the model's set, dry-run nothing and list that set, and never change anything outside cond-out.",
+             note=E1_NOTE, ref="DESIGN.md §3 C13"),
+ "C15": dict(level="exploration", engine="E5 frontend + CLI", technique="runtime monitoring of the real loader on grammar-generated COND sources against a reference validator written from the documentation; CLI sample observing exit status, ERROR diagnostics, spawns and created outputs",
+             text="Systematic: each constructor x each parameter x {omitted, right type, 30+ wrong/boundary values}, names, dependency strings, duplicates, positional calls, Python failures in COND / included / dependency COND files, the include() matrix; plus random compositions. Accept iff the reference validator accepts; rejections must be ConductorErrors with file context; CLI: exit 1, ERROR: naming the file, no traceback, nothing executed, --check creates nothing.",
+             note="Trusted base: the reference validator (60 lines, from website/docs). Excluded: SystemExit/KeyboardInterrupt raised by COND code, environment(), values whose str() raises.", ref="DESIGN.md §3 C15"),
+ "C17": dict(level="exploration", engine="E4 statecheck", technique="runtime metamorphic monitoring: the same command on the same restored project state from different working directories; the run from the project root is the reference",
+             text="21 command/flag combinations x 7 working directories (root, package dirs, directory without COND, cond-out, inside a task output) x project states; exit status, executed tasks and their cwd, resulting tree and rows, and printed locations (relative paths resolved against the invoking directory) must coincide.",
+             note=E1_NOTE + " A frozen clock script is given to every variant so that new version ids coincide.", ref="DESIGN.md §3 C17"),
+ "C18": dict(level="exploration", engine="E1/E4 (real processes, probe)", technique="runtime monitoring of combine outputs across run histories: resolved link targets vs the directory each dependency's own probe saw as COND_OUT (or `cond where` before the run)",
+             text="combine over dependencies of every kind in nested packages with a sibling consumer; histories run / --again / partial re-runs; every entry must be a symlink resolving to exactly the directory the dependency produced or had selected, equal to what the sibling received in COND_DEPS; a pre-existing regular file or directory must be reported, not overwritten.",
+             note=E1_NOTE, ref="DESIGN.md §3 C18"),
 }
 
 def main():
@@ -54,7 +89,7 @@ def main():
             "level_note": c["note"],
             "technique": c["technique"],
         })
-    na = [{"property_id": p, "reason": "check not built yet in this session (work in progress; the design in DESIGN.md §3 covers it with runtime monitoring)"} for p in ALL if p not in CHECKS]
+    na = [{"property_id": p, "reason": "not claimed"} for p in ALL if p not in CHECKS]
     m = {
         "version": 1,
         "setup_cmd": "./setup.sh",
@@ -62,6 +97,9 @@ def main():
                   "baseline_off_cmd": "cd /repo && /venv/bin/python -m pytest -ra -q -p no:cacheprovider --timeout=900 --continue-on-collection-errors", "source_commits": [], "add_only": True},
         "engines": [
             {"name": "E2 fakekernel", "path": "cverif/fakekernel.py", "serves_properties": ["C01", "C02", "C03", "C04", "C09", "C16", "C19"], "kind_free_text": "real Conductor + real CPython subprocess lifecycle over an interposed process kernel with scheduler strategies; history recorder"},
+            {"name": "E1 procmon", "path": "cverif/realrun.py", "serves_properties": ["C05", "C06", "C07", "C08", "C10", "C11", "C12", "C13", "C17", "C18"], "kind_free_text": "real projects whose task commands are a probe (cverif/probe.py) that records argv/cwd/env/listing and follows a script; real kernel and processes"},
+            {"name": "E3 crashpoint", "path": "cverif/cli.py", "serves_properties": ["C06", "C12"], "kind_free_text": "sys.monitoring LINE events -> os._exit(137) at the k-th main-thread line of conductor.* / shutil.py; real SIGKILL soak"},
+            {"name": "E4 statecheck", "path": "cverif/statecheck.py", "serves_properties": ["C05", "C08", "C11", "C12", "C13", "C17", "C18"], "kind_free_text": "command histories over real projects with full-tree Merkle snapshots and independent index reads, compared with reference models"},
             {"name": "E5 frontend", "path": "cverif/checks/c14.py", "serves_properties": ["C14", "C15", "C19", "C20"], "kind_free_text": "in-process input-space workloads over the real parser/validator/identifier code with reference-model oracles"},
             {"name": "cli runner", "path": "cverif/cli.py", "serves_properties": ["C05", "C06", "C07", "C08", "C10", "C11", "C12", "C13", "C14", "C15", "C17", "C18", "C20"], "kind_free_text": "runs the real CLI (forked from a warmed interpreter, or a separate python -m conductor) with optional audit-hook trace, clock script, crash-at-line"},
         ],
